@@ -531,7 +531,10 @@ class Assembler:
         u = self.u
         parts = ['// GENERATED on every run by vlib/assemble_verus.py from /repo -- do not edit\n',
                  '#![allow(unused_imports, unused_variables, dead_code, unused_mut, unused_parens, unused_braces, non_snake_case)]\n',
-                 'use vstd::prelude::*;\n']
+                 ]
+        for l in u.get('crate_attrs', []):
+            parts.append(l + '\n')
+        parts += ['use vstd::prelude::*;\n']
         for l in u.get('uses_outside', []):
             parts.append(l + '\n')
         parts.append('verus! {\n')
